@@ -183,6 +183,9 @@ func backendProp(b backendSpec, meaning string) propFunc {
 			r.floor("image.depthlike", 1)
 		}
 		if b.Name == "hlsl" || b.Name == "msl" {
+			r.Clauses = append(r.Clauses, "one class, one treatment (E64): the two address spaces that are one storage class (PushConstant and Immediate - the two WGSL spellings of the same thing, as the SPIR-V space-to-class function shows) appear together in every switch over / comparison with the address space")
+			c.runSpaceSameClassIn(r, "space.sameclass", "spirv/internal/codegen", b.Name+"/internal/codegen", nil)
+			r.floor("space.sameclass", 1)
 			r.Clauses = append(r.Clauses, indexLenClause)
 			c.runIndexLen(r, "shape.indexlen", inPkgs(b.Name))
 			r.floor("shape.indexlen", 1)
